@@ -66,15 +66,14 @@ Theorem C12_translated_select_new_population {G} (gdef : G) mx k_elites (parents
   pf (gen_select_new_population gdef mx k_elites parents offspring o1 o2) = sea_select mx k_elites (pf parents) (pf offspring) o1 o2.
 Proof. exact (select_new_population_fits gdef mx k_elites parents offspring o1 o2). Qed.
 Print Assumptions C12_translated_select_new_population.
-Theorem C12_translated_DE_replacement {G} mx (trial parents : pop (G:=G)) :
-  pf (gen_DE_result trial parents (gen_DE_mask mx trial parents)) = de_select mx (pf trial) (pf parents).
+Theorem C12_translated_DE_replacement {G} mx (trial parents : pop (G:=G)) : pf (gen_DE_result mx trial parents) = de_select mx (pf trial) (pf parents).
 Proof. exact (DE_result_fits mx trial parents). Qed.
 Print Assumptions C12_translated_DE_replacement.
-Theorem C12_translated_SHADE_replacement {G} mx (trial parents : pop (G:=G)) :
-  pf (gen_SHADE_result trial parents (gen_SHADE_mask mx trial parents)) = de_select mx (pf trial) (pf parents).
+Theorem C12_translated_SHADE_replacement {G} mx (trial parents : pop (G:=G)) : pf (gen_SHADE_result mx trial parents) = de_select mx (pf trial) (pf parents).
 Proof. exact (SHADE_result_fits mx trial parents). Qed.
 Print Assumptions C12_translated_SHADE_replacement.
-Theorem C12_translated_rows_stay_together {G} (trial parents : pop (G:=G)) m : aligned trial ->
-  rows_of (gen_DE_result trial parents m) = pick m (rows_of trial) ++ pick (map negb m) (rows_of parents).
-Proof. exact (DE_result_rows trial parents m). Qed.
+Theorem C12_translated_rows_stay_together {G} mx (trial parents : pop (G:=G)) : aligned trial ->
+  rows_of (gen_DE_result mx trial parents) =
+  pick (de_mask mx (pf trial) (pf parents)) (rows_of trial) ++ pick (map negb (de_mask mx (pf trial) (pf parents))) (rows_of parents).
+Proof. exact (DE_result_rows mx trial parents). Qed.
 Print Assumptions C12_translated_rows_stay_together.
